@@ -118,6 +118,7 @@ pub fn c05(tier: &str) -> i32 {
     let mut groups = vec![
         g("where-atoms", 16, "SELECT * FROM t WHERE a / NOT a / NOT NOT a for every typed atom: comparisons col-literal and col-col (6 operators), IS [NOT] NULL, [NOT] BETWEEN, [NOT] IN (with and without NULL in the list), [NOT] LIKE, text comparisons, arithmetic with every associativity/precedence shape and unary minus, TRUE/FALSE"),
         g("where-pairs", 256, "a AND b, a OR b for ALL ordered pairs of atoms"),
+        g("typed-select", 32, "SELECT id, x op y FROM m for every ordered pair of 9 typed operands (a column of each numeric type INT, BIGINT, UINT, BIGUINT, FLOAT, DOUBLE and the literals 2, 0.5, 3000000000) and + - * / %, over 3 rows: the value AND the inferred type of the output column (a fraction must survive, an unsigned result must not turn negative)"),
         g("select-list", 32, "all ordered pairs of 12 select-list expressions (columns, arithmetic with precedence, unary minus, literals, NULL), plain and with aliases + WHERE"),
         g("aggregates", 16, "COUNT(*) and COUNT/SUM/AVG/MIN/MAX of every column under 4 predicates (incl. an empty input), GROUP BY v / s with each aggregate"),
         g("order-limit-distinct", 64, "ORDER BY every column asc/desc (ties compared as sets), two-key orders, LIMIT {0,1,2,6,100} x OFFSET {none,0,1,2,5,6,7}, DISTINCT on one and two columns"),
